@@ -138,8 +138,16 @@ func (cb *CanonicalBlock) UnmarshalCbor(r io.Reader) error {
 
 	if crcT, err := cboring.ReadUInt(r); err != nil {
 		return err
+	} else if crcT > uint64(CRC32) {
+		return fmt.Errorf("unknown CRC type %d", crcT)
 	} else {
 		cb.CRCType = CRCType(crcT)
+	}
+
+	// The CRC field is present if and only if a CRC type is announced. Otherwise a block could claim a CRC which
+	// is never checked.
+	if hasCRCField := blockLen == 6; hasCRCField != cb.HasCRC() {
+		return fmt.Errorf("array with %d elements does not match CRC type %v", blockLen, cb.CRCType)
 	}
 
 	if b, err := GetExtensionBlockManager().ReadBlock(blockType, r); err != nil {
